@@ -9,7 +9,7 @@ import types
 
 import numpy as np
 
-from .. import core, gen, fitlab, hmodels
+from .. import core, gen, fitlab, hmodels, ref
 
 ID = "C18"
 LEVEL = "exploration"
@@ -411,6 +411,89 @@ def check_file_copy(rec, rng, cid, tmpdir, counter):
         model.models_available.pop(key, None)
 
 
+OWN_MODEL = '''
+
+def model(params, delta):
+    p = params.valuesdict()
+    return hertz_paraboloidal(delta=delta, **p) + 7e-9   # own signature
+'''
+OWN_RESIDUAL = '''
+
+def residual(params, delta, force, weight_cp=5e-7):
+    p = params.valuesdict()
+    return 3.0 * (force - hertz_paraboloidal(delta=delta, **p))
+'''
+
+
+def check_partial(rec, rng, cid, tmpdir, counter):
+    """(e) modules that bring their own `model` or their own `residual` (one
+    of the two): accepted, the own function is used, the missing one gets the
+    documented default wrapper"""
+    from nanite import model
+    for own in ("model", "residual", "both", "neither"):
+        for as_file in (False, True):
+            counter[0] += 1
+            key = "hm_part_%s_%d_%d_%d" % (own, cid[0], cid[1], counter[0])
+            src = BASE_SRC.replace("KEY", key)
+            if own in ("model", "both"):
+                src += OWN_MODEL
+            if own in ("residual", "both"):
+                src += OWN_RESIDUAL
+            case = {"id": cid, "kind": "partial-module", "own": own,
+                    "as_file": as_file}
+            rec.event("modules with own model / residual offered")
+            rec.evaluated(dg=("partial", own, as_file))
+            try:
+                if as_file:
+                    f = pathlib.Path(tmpdir) / ("p%d_%s.py" % (counter[0],
+                                                               key))
+                    f.write_text(src)
+                    md = model.load_model_from_file(f, register=True)
+                else:
+                    md = model.register_model(module_from_source(src, key))
+                    md = model.models_available[key]
+            except BaseException as e:  # noqa
+                rec.violation("partial-module/%s/rejected/%s"
+                              % (own, type(e).__name__),
+                              "valid module with own %s rejected: %s"
+                              % (own, str(e)[:80]), case)
+                model.models_available.pop(key, None)
+                continue
+            try:
+                prm = {"E": float(10 ** rng.uniform(2, 5)), "R": 5e-6,
+                       "nu": .4, "contact_point": 1e-7, "baseline": 2e-10}
+                par = gen.nanite_params(key, prm)
+                x = np.linspace(2e-6, -2e-6, 64)
+                want = ref.force("hertz_para", x, prm)
+                got = md.model(par, x)
+                sig = 7e-9 if own in ("model", "both") else 0.0
+                rec.check(np.allclose(got, want + sig, rtol=1e-12, atol=0),
+                          "partial-module/%s/model" % own,
+                          "model() of a module with own %s does not evaluate "
+                          "%s" % (own, "its own function" if sig else
+                                  "the default wrapper"), case)
+                force = want + 1e-10
+                r = md.residual(par, x, force, 5e-7)
+                if own in ("residual", "both"):
+                    wr = 3.0 * (force - want)
+                else:
+                    # (the default residual wraps `model_func`, not the
+                    #  module's own `model`)
+                    wr = (force - want) * ref.cp_weights(x, 1e-7, 5e-7)
+                rec.check(np.allclose(r, wr, rtol=1e-9, atol=1e-24),
+                          "partial-module/%s/residual" % own,
+                          "residual() of a module with own %s is not %s"
+                          % (own, "its own function" if own in
+                             ("residual", "both") else "the default"), case)
+            except BaseException as e:  # noqa
+                rec.violation("partial-module/%s/raises/%s"
+                              % (own, type(e).__name__),
+                              "evaluating a module with own %s raised %s"
+                              % (own, str(e)[:80]), case)
+            finally:
+                model.models_available.pop(key, None)
+
+
 def check_ancillaries(rec, rng, cid):
     """(d) ancillary values seed matching fit parameters unless NaN"""
     from nanite import model
@@ -463,6 +546,7 @@ def run_all(rec, rng, cid, tmpdir, counter, with_faults):
         check_faulty(rec, rng, cid, tmpdir, counter)
     check_sequence(rec, rng, cid, tmpdir, counter)
     check_file_copy(rec, rng, cid, tmpdir, counter)
+    check_partial(rec, rng, cid, tmpdir, counter)
     check_ancillaries(rec, rng, cid)
 
 
